@@ -71,6 +71,7 @@ func basePositions() *Schema {
 		var out []*Field
 		for i, t := range shapes(next) {
 			out = append(out, fd(t, fmt.Sprintf("%s%d", prefix, i)))
+			out[len(out)-1].Dep = i%3 == 1 // every third field is retired: its type must exist all the same
 		}
 		return out
 	}
@@ -78,6 +79,7 @@ func basePositions() *Schema {
 		var out []*Field
 		for i, t := range shapes(next) {
 			out = append(out, mfd(fmt.Sprint(i+1), t, fmt.Sprintf("%s%d", prefix, i)))
+			out[len(out)-1].Dep = i%3 == 1
 		}
 		return out
 	}
